@@ -353,9 +353,57 @@ def r8(ctx, facts):
     failed_pick(r, facts)
 
 
+def r9(ctx, facts):
+    """the task that maintains a node's pool must survive every connection error it is told about. A connection that breaks
+    after the node came back with FEWER shards still carries its old shard id; remove_connection looks the bucket up by that id,
+    so each bucket access there is guarded by a comparison with the current number of buckets (a panic in this task freezes the
+    pool: dead connections stay published, nothing is re-established)."""
+    r = ctx.rule("R9", "remove_connection: every access to `conns[shard]` is under `shard < conns.len()` (a late error of a pre-reshard connection must not panic the pool task)", floor=1)
+    b = facts.one(r"^scylla::network::connection_pool::PoolRefiller::remove_connection$")
+    df = df_of(b, facts)
+    idx = [c for bb, c in b.calls() if bb in b.live_blocks and (c.decl or c.name or "").split("::")[-1] in ("index", "index_mut")
+           and len(c.args) == 2 and "conns" in _fields(b, c.args[0]) and c.args[1][0] in ("c", "m") and b.local_ty(c.args[1][1][0]) == "usize"]
+    if not idx:
+        r.instance("no-unchecked-bucket-access", True, "remove_connection does not index `conns` (get / get_mut or an iterator is used)", b.span, nontrivial=False)
+        return
+    lens = [c for bb, c in b.calls() if bb in b.live_blocks and (c.decl or c.name or "").split("::")[-1] == "len" and c.args and "conns" in _fields(b, c.args[0])]
+    for k, c in enumerate(idx):
+        i_locs = backward_slice(b, c.args[1])[0] | {c.args[1][1][0]}
+        guarded = False
+        for sw in sorted(b.live_blocks):
+            t = b.term(sw)
+            if t[0] != "switch" or t[1][0] not in ("c", "m") or not b.dominates(sw, c.bb) or sw == c.bb:
+                continue
+            sd = b.single_def(t[1][1][0])
+            if not (sd and sd[0] == "stmt" and sd[3][0] == "bin" and sd[3][1] in ("Lt", "Gt", "Le", "Ge")):
+                continue
+            a0, a1 = sd[3][2], sd[3][3]
+            def is_len(op):
+                return op[0] in ("c", "m") and any(l.dest[0] in (backward_slice(b, op)[0] | {op[1][0]}) for l in lens)
+            def is_idx(op):
+                return op[0] in ("c", "m") and bool((backward_slice(b, op)[0] | {op[1][0]}) & i_locs) and not is_len(op)
+            op = sd[3][1]
+            if is_len(a0) and is_idx(a1):
+                op = {"Gt": "Lt", "Lt": "Gt", "Le": "Ge", "Ge": "Le"}[op]
+            elif not (is_idx(a0) and is_len(a1)):
+                continue
+            edges = {int(v): tg for v, tg in t[2]}
+            false_tg = edges.get(0, t[3])
+            true_tg = t[3] if 0 in edges else edges.get(1, t[3])
+            # idx < len on the edge that leads to the access; the other edge must not reach it
+            inside, outside = (true_tg, false_tg) if op == "Lt" else ((false_tg, true_tg) if op == "Ge" else (None, None))
+            if inside is None:
+                continue
+            if c.bb in (b.reachable_from(inside) | {inside}) and c.bb not in (b.reachable_from(outside, removed_nodes=[sw]) | {outside}):
+                guarded = True
+        r.instance("bucket-access-is-bounds-guarded#%d" % k, guarded,
+                   "`conns[shard]` is indexed with the shard id the connection reported when it was opened, without `shard < conns.len()`: after a reshard to "
+                   "fewer shards the late error of an old connection panics the refiller task", c.span)
+
+
 def check(ctx):
     facts = inline_view(ctx.facts("default"))
-    for fn in (r1, r2_r5, r3, r4, r6, r7, r8):
+    for fn in (r1, r2_r5, r3, r4, r6, r7, r8, r9):
         try:
             fn(ctx, facts)
         except AnchorLost as ex:
